@@ -92,11 +92,14 @@ func C19(env *Env) {
 	env.c19TypedErrors()
 	env.c19Flags()
 	env.c19ParseConfig()
+	// no config / flag combination crashes the tool (library entry points are decided by C10)
+	env.safetyKinds("C19", map[string]bool{"B1": true, "B3": true, "B4": true}, checkPkg, "main", "verify.TdxQuote", "validate.TdxQuote", "verify.RootOfTrustToOptions", "validate.PolicyToOptions", "abi.QuoteToProto")
 	r.Floor("C19/EXIT0", 8)
 	r.Floor("C19/EXITCODE", 6)
 	r.Floor("C19/TYPED-ERR", 6)
 	r.Floor("C19/FLAG", 14)
 	r.Floor("C19/NONNIL", 4)
+	r.Floor("C19/B1", 3)
 }
 
 func constIntOf(v ssa.Value) (int64, bool) {
